@@ -69,6 +69,10 @@ def check_image(case):
         k = next(i for i in range(len(want)) if want[i] != payload[i])
         raise Violation('%s %dx%d: decoded pixels differ from the input at payload byte %d (row %d)' % (fmt, w, h, k, k // (w * sel)))
     labels = [fmt]
+    if w > 1024:
+        labels.append('width>1024')
+    if w > 4096:
+        labels.append('width>4096')
     if w == 1:
         labels.append('single-column')
     if h == 1:
@@ -180,7 +184,9 @@ def campaign(which):
 
     if which == 'images':
         dims = st.one_of(st.tuples(st.integers(1, 64), st.integers(1, 64)), st.tuples(st.just(1), st.integers(1, 64)),
-                         st.tuples(st.integers(1, 64), st.just(1)), st.tuples(st.integers(65, 1024), st.integers(1, 4)))
+                         st.tuples(st.integers(1, 64), st.just(1)), st.tuples(st.integers(65, 1024), st.integers(1, 4)),
+                         # very wide rows (power-of-two boundaries: a writer that buffers or tiles a row changes path there)
+                         st.tuples(st.sampled_from([2047, 2048, 2049, 4095, 4096, 4097, 5000, 8192, 8193]), st.integers(1, 2)))
 
         @st.composite
         def cases(draw):
@@ -189,7 +195,7 @@ def campaign(which):
             bpp = FMT[fmt][1]
             n = w * h
             if fmt in ('ppm', 'pgm'):
-                mode = draw(st.integers(0, 2))
+                mode = draw(st.integers(0, 2)) if n <= 4096 else 0
                 if mode == 0:   # pairwise distinct pixel words
                     base = draw(st.integers(0, 2 ** 32 - 1))
                     mul = draw(st.sampled_from([2654435761, 40503, 1, 0x01010101 + 2]))
